@@ -55,7 +55,7 @@ C04(C, X) ==
             /\ \A k \in Kids(C, s) : (C.crit[k] /\ X.st[k] = "exc") => X.te[k] >= X.ta[s]
       /\ X.cause[s] = "timeout" =>
             /\ C.tmo[s] >= 0 /\ X.ta[s] = Deadline(C, X, s)
-            /\ \E k \in NonForever(C, s) : ~(Fin(X, k) /\ X.te[k] < X.ta[s])
+            /\ NonForever(C, s) # {} => \E k \in NonForever(C, s) : ~(Fin(X, k) /\ X.te[k] < X.ta[s])
             /\ \A k \in Kids(C, s) : (C.crit[k] /\ X.st[k] = "exc") => X.te[k] >= X.ta[s]
       /\ X.cause[s] = "critical" =>
             /\ \E k \in Kids(C, s) : C.crit[k] /\ X.st[k] = "exc" /\ X.te[k] = X.ta[s]
@@ -100,14 +100,17 @@ C08(C, X) ==
     \* a run still in its main loop is never past its deadline when time is about to pass
     /\ (C.tmo[s] >= 0 /\ MainG(C, X, s)) => X.now <= Deadline(C, X, s)
     \* the timeout has no effect when everything finished strictly before it
-    /\ (X.cause[s] = "timeout") => ~(\A k \in NonForever(C, s) : Fin(X, k) /\ X.te[k] < X.ta[s])
+    \* (a scheduler with no non-forever job at all is outside this clause: its run
+    \*  ends with the first forever job that completes, or at the timeout)
+    /\ (X.cause[s] = "timeout" /\ NonForever(C, s) # {})
+          => ~(\A k \in NonForever(C, s) : Fin(X, k) /\ X.te[k] < X.ta[s])
 
 (* C09  forever jobs                                                       *)
 C09(C, X) ==
   \A s \in Scheds(C) :
     (Aborted(X, s) /\ X.cause[s] = "success" /\ Kids(C, s) # {}) =>
        /\ AbortShape(C, X, s)
-       /\ X.ta[s] = Max({X.te[k] : k \in NonForever(C, s)} \cup {X.t0[s]})
+       /\ NonForever(C, s) # {} => X.ta[s] = Max({X.te[k] : k \in NonForever(C, s)})
        /\ \A k \in Kids(C, s) : ~Fin(X, k) => C.forever[k]
        /\ \A k \in Kids(C, s) : (IsJob(C, k) /\ X.st[k] \in {"cancelling", "cancelled"} /\ X.nstart[k] > 0)
                                    => X.tc[k] = X.ta[s]
